@@ -320,6 +320,49 @@ class Resolve(Harness):
             yield 'first-candidate-dialled', len(d) == 1 and d[0][0] == cand[0][0] and d[0][1][0] == cand[0][1] and bool(d[0][1][1] == inp['port'])
 
 
+class RateResolve(Harness):
+    """the connection-rate phase of a standard audit resolves the target on its own (DHEat._resolve_hostname): for an arbitrary resolver answer and every
+    preference setting it picks the address that SSH_Socket would dial first - the requested family only, resp. the families in the requested order."""
+    prop, ob = PROP, 'O3'
+    width = 64
+
+    def __init__(self, pref, nans):
+        self.pref, self.nans = tuple(pref), nans
+        self.name = 'rateresolve-pref(%s)-%d' % (''.join(map(str, pref)) or 'none', nans)
+
+    def params(self):
+        return {'pref': list(self.pref), 'nans': self.nans}
+
+    def inputs(self):
+        return {'fam': [zx.fresh_bool('f%d' % i) for i in range(self.nans)]}
+
+    def run(self, M, inp):
+        fams = [(_socket.AF_INET6 if bool(f) else _socket.AF_INET) for f in inp['fam']]
+        answer = [(f, _socket.SOCK_STREAM, 6, '', (('v6-%d' % i) if f == _socket.AF_INET6 else ('v4-%d' % i), 0)) for i, f in enumerate(fams)]
+        net = AE.FakeNet([], addrinfo=answer)
+        with AE.patched(M.dheat, socket=net):
+            r = guarded(M.dheat.DHEat._resolve_hostname, 'example', list(self.pref))
+        return {'r': r, 'answer': [(f, a[4][0]) for f, a in zip(fams, answer)], 'asked': [q[2] for q in net.resolved]}
+
+    def check(self, inp, obs):
+        yield 'no-exception', not isinstance(obs['r'], Exc)
+        if isinstance(obs['r'], Exc):
+            return
+        ans = obs['answer']
+        if self.pref in ((4,), (6,)):
+            fam = _socket.AF_INET if self.pref == (4,) else _socket.AF_INET6
+            cand = [a for a in ans if a[0] == fam]
+        elif len(self.pref) == 2:
+            first = _socket.AF_INET if self.pref[0] == 4 else _socket.AF_INET6
+            cand = [a for a in ans if a[0] == first] + [a for a in ans if a[0] != first]
+        else:
+            cand = list(ans)
+        if cand:
+            yield 'rate-check-targets-the-first-candidate-of-the-requested-order', obs['r'] == (int(cand[0][0]), cand[0][1])
+        else:
+            yield 'no-address-of-a-requested-family', obs['r'][1] == ''
+
+
 class Label(Harness):
     """'(gen) target:' / policy 'Host:' / JSON target denote the same (host, port) (IPv6 bracket rule)."""
     prop, ob = PROP, 'O4'
@@ -593,6 +636,9 @@ def tasks(tier):
         for host in ('2001:db8::5', '192.0.2.9'):
             for n in (0, 1, 2):
                 T.append(Resolve(pref, n, host))
+    for pref in ((), (4,), (6,), (4, 6), (6, 4)):
+        for n in ((1, 2, 3) if q else (0, 1, 2, 3, 4)):
+            T.append(RateResolve(pref, n))
     for hi in range(4):
         for np_ in ((2, 5) if q else (1, 2, 3, 4, 5)):
             T.append(Label(hi, np_))
@@ -624,6 +670,8 @@ def harness_by_name(name, params):
         return CommandLine(p['form'], p['nport'], p['ipv'])
     if k == 'targetsfile':
         return TargetsFile(p['shape'], p['with_p'])
+    if k == 'rateresolve':
+        return RateResolve(p['pref'], p['nans'])
     if k == 'resolve':
         return Resolve(p['pref'], p['nans'], p.get('host', 'example'))
     if k == 'label':
